@@ -46,8 +46,9 @@ def rule_a(ctx):
     ctx.ob(R, f.qname, "every intermediate is assigned once per branch", not multi, str(sorted(multi)), f.node)
 
     sb = [d for d in defs.values() if d[0] == "_subtract_background"]
-    ctx.need(len(sb) == 1 and len(sb[0][1]) == 1 and sb[0][1][0].isidentifier(), f"{f.qname}: the call self._subtract_background(<working image>) was not found")
+    ctx.need(len(sb) == 1 and len(sb[0][1]) == 1, f"{f.qname}: the call self._subtract_background(<working image>) was not found")
     PROBE = sb[0][1][0]
+    STAGESET = set(STAGES) | {"_restore_signal", "_convert_signal"}
 
     # the packaged array: first argument of the returned constructor calls (one name, defined once per order branch)
     ret_args = {norm(r.value.args[0]) for r in ast.walk(f.node) if isinstance(r, ast.Return) and isinstance(r.value, ast.Call) and r.value.args}
@@ -80,7 +81,7 @@ def rule_a(ctx):
         stages = []
         cur = e
         extra = None
-        while isinstance(cur, ast.Call) and norm(cur.func).startswith("self._") and cur.args:
+        while isinstance(cur, ast.Call) and norm(cur.func).startswith("self._") and norm(cur.func)[5:] in STAGESET and cur.args:
             stages.append((norm(cur.func)[5:], [norm(a) for a in cur.args]))
             cur = cur.args[0]
         return list(reversed(stages)), norm(cur), e
@@ -88,10 +89,11 @@ def rule_a(ctx):
     for flag, tail in ((True, ["_restore_signal", "_convert_signal"]), (False, ["_convert_signal", "_restore_signal"])):
         ch, start, e = chain_for(flag)
         names = [c[0] for c in ch]
-        ctx.ob(R, f.qname, f"restoration->model = {flag}: stages run in the documented order, each on the previous result", names == STAGES + tail and start == PROBE,
+        probe_x = norm(expand(f.node, ast.parse(PROBE, mode="eval").body))
+        ctx.ob(R, f.qname, f"restoration->model = {flag}: stages run in the documented order, each on the previous result", names == STAGES + tail and start in (PROBE, probe_x),
                f"chain from `{start}`: {names}", f.node)
         conv = [a for st, a in ch if st == "_convert_signal"]
-        ctx.ob(R, f.qname, f"restoration->model = {flag}: the model also receives the original difference", bool(conv) and len(conv[0]) == 2 and conv[0][1] == f"self._subtract_background({PROBE})", str(conv)[:200], f.node)
+        ctx.ob(R, f.qname, f"restoration->model = {flag}: the model also receives the original difference", bool(conv) and len(conv[0]) == 2 and conv[0][1] in (f"self._subtract_background({PROBE})", f"self._subtract_background({probe_x})"), str(conv)[:200], f.node)
         ctx.ob(R, f.qname, f"restoration->model = {flag}: the end of the chain is what is returned", e is not None, f"returned {RES}", f.node)
     ctx.ob(R, f.qname, "the order flag is the constructor option 'restoration -> model'", any(
         isinstance(s, ast.Assign) and norm(s.targets[0]) == "self.first_restoration_then_model" and norm(s.value) == "kwargs.get('restoration -> model', True)"
@@ -213,10 +215,23 @@ def rule_c(ctx):
     f = m.method(k, "__call__")
     p = f.params[1]
     ctx.instance(R)
-    sb = [c for c in ast.walk(f.node) if isinstance(c, ast.Call) and norm(c.func) == "self._subtract_background" and len(c.args) == 1 and isinstance(c.args[0], ast.Name)]
+    sb = [c for c in ast.walk(f.node) if isinstance(c, ast.Call) and norm(c.func) == "self._subtract_background" and len(c.args) == 1]
     ctx.need(len(sb) == 1, f"{f.qname}: the call self._subtract_background(<working image>) was not found")
-    work = sb[0].args[0].id
-    probes = [norm(s.value) for s in ast.walk(f.node) if isinstance(s, ast.Assign) and norm(s.targets[0]) == work]
+    warg = sb[0].args[0]
+    if isinstance(warg, ast.Name):
+        probes = [norm(s.value) for s in ast.walk(f.node) if isinstance(s, ast.Assign) and norm(s.targets[0]) == warg.id]
+    else:
+        probes = [norm(warg)]
+    # a working image produced by a helper of the class: every value the helper returns, with the helper's parameter renamed to the probe
+    def through_helper(txt):
+        e = ast.parse(txt, mode="eval").body
+        if isinstance(e, ast.Call) and norm(e.func).startswith("self._") and [norm(a_) for a_ in e.args] == [p]:
+            h = m.method(k, e.func.attr)
+            if h is not None and len(h.params) == 2:
+                from ..flow import expand as _ex
+                return [norm(_ex(h.node, r.value)).replace(h.params[1], p) for r in ast.walk(h.node) if isinstance(r, ast.Return) and r.value is not None]
+        return [txt]
+    probes = [y for x in probes for y in through_helper(x)]
     ctx.ob(R, f.qname, "working image is copy.deepcopy(probe) on every path", len(probes) >= 1 and all(v.startswith(f"copy.deepcopy({p})") for v in probes), str(probes), f.node)
     E = Effects(m)
     ev = E.events_on(f, p)
@@ -250,16 +265,29 @@ def rule_d(ctx):
     f = m.method(m.cls(MOD, "ConcentrationAnalysis"), "__call__")
     p = f.params[1]
     ctx.instance(R)
-    am = AM(f)
-    ctx.ob(R, f.qname, "metadata = probe.metadata()", am.has(f.node, f"metadata = {p}.metadata()") is not None, "", f.node)
-    ctx.ob(R, f.qname, "scalar iff result has one axis fewer than the probe", am.has(f.node, f"is_scalar = len(concentration.shape) == len({p}.shape) - 1") is not None, str(am.show()), f.node)
-    fin = [s for s in f.node.body if isinstance(s, ast.If) and am.eq(s.test, "is_scalar")]
-    ok = len(fin) == 1 and am.eq_block(fin[0].body, ["return darsia.ScalarImage(concentration, **metadata)"]) and am.eq_block(fin[0].orelse, [f"return type({p})(concentration, **metadata)"])
-    n_ret = sum(1 for r in ast.walk(f.node) if isinstance(r, ast.Return))
-    ctx.ob(R, f.qname, "ScalarImage when reduced, type(probe) otherwise (the only two returns)", ok and n_ret == 2, str(am.show()), f.node)
-    # the packaged array is the end of the stage chain (C13.a checks the chain itself)
-    last = [s for s in ast.walk(f.node) if isinstance(s, ast.Assign) and isinstance(s.targets[0], ast.Name) and s.targets[0].id == am.actual("concentration")]
-    ctx.ob(R, f.qname, "the packaged array is produced by the last stage of either order", len(last) == 2 and {norm(s.value.func) for s in last if isinstance(s.value, ast.Call)} == {"self._convert_signal", "self._restore_signal"}, str([norm(s) for s in last]), f.node)
+    # the packaging may sit in __call__ or in a helper it delegates to: located by the ScalarImage constructor call
+    from ..amatch import helper_closure
+
+    hosts = [g for g in helper_closure(f) if any(isinstance(c, ast.Call) and norm(c.func) == "darsia.ScalarImage" for c in ast.walk(g.node))]
+    if len(hosts) != 1:
+        ctx.ob(R, f.qname, "result packaging (ScalarImage / type(probe)) found", False, "packaging code not found", f.node)
+        ctx.floor(R, 1)
+        return
+    g = hosts[0]
+    am = AM(g, params_bindable=(g is not f))
+    pr = p if g is f else "probe"
+    am.let("metadata", f"{pr}.metadata()")
+    am.let("is_scalar", f"len(concentration.shape) == len({pr}.shape) - 1")
+    t1 = am.has(g.node, "return darsia.ScalarImage(concentration, **metadata)")
+    t2 = am.has(g.node, f"return type({pr})(concentration, **metadata)") if t1 is not None else None
+    ctx.ob(R, g.qname, "metadata = probe.metadata(); ScalarImage(result, **metadata) resp. type(probe)(result, **metadata)", t1 is not None and t2 is not None, str(am.show()), g.node)
+    conds = [n for n in ast.walk(g.node) if isinstance(n, ast.If) and am.eq(n.test, "is_scalar")]
+    in_body = len(conds) == 1 and t1 is not None and any(t1 is x for x in ast.walk(ast.Module(body=conds[0].body, type_ignores=[])))
+    n_ret = sum(1 for r in ast.walk(g.node) if isinstance(r, ast.Return))
+    ctx.ob(R, g.qname, "scalar iff result has one axis fewer than the probe; ScalarImage when reduced, type(probe) otherwise (the only two returns)", in_body and n_ret == 2, str(am.show()), g.node)
+    if g is not f:
+        calls = [c for c in ast.walk(f.node) if isinstance(c, ast.Call) and isinstance(c.func, ast.Attribute) and c.func.attr == g.name]
+        ctx.ob(R, f.qname, "the packaging helper receives the result and the probe", len(calls) == 1 and len(calls[0].args) == 2 and norm(calls[0].args[1]) == p, str([norm(c) for c in calls]), f.node)
     ctx.floor(R, 1)
 
 
